@@ -206,7 +206,9 @@ def known_class(cls, sig):
 
 def PROOFS():
     from ..contracts import call_resolver_c
-    return [("vf.contracts.call_resolver_c", ["formulae.terms.call_resolver.LazyValue.eval"])]
+    R = "formulae.terms.call_resolver."
+    return [("vf.contracts.call_resolver_c", [R + "LazyValue.eval"] + [R + c for c in (
+        "LazyValue.__eq__", "LazyCall.__eq__", "LazyOperator.__eq__", "LazyVariable.__eq__")])]
 
 
 def run(report, findings):
